@@ -57,8 +57,8 @@ type Engine struct {
 	res     *HarnessResult
 }
 
-var opaquePkgs = map[string]bool{"compress/flate": true, "crypto/tls": true, "net/http": true}
-var opaqueTypes = map[string]bool{"compress/flate.Writer": true, "crypto/tls.Conn": true}
+var opaquePkgs = map[string]bool{"compress/flate": true, "crypto/tls": true, "net/http": true, "encoding/json": true}
+var opaqueTypes = map[string]bool{"compress/flate.Writer": true, "crypto/tls.Conn": true, "encoding/json.Encoder": true, "encoding/json.Decoder": true}
 
 var defaultAllowedPkgs = []string{
 	"bufio", "io", "bytes", "strings", "strconv", "errors", "unicode/utf8",
